@@ -8,7 +8,9 @@ use std::panic::{catch_unwind, AssertUnwindSafe};
 use std::sync::Mutex;
 use std::time::Instant;
 
-pub const VERIF_DIR: &str = "/verif";
+pub fn verif_dir() -> String {
+    std::env::var("VERIF_DIR").unwrap_or_else(|_| "/verif".to_string())
+}
 
 #[derive(Clone, Debug)]
 pub struct Outcome {
@@ -138,7 +140,7 @@ pub struct KnownFinding {
 
 pub fn load_known() -> Vec<KnownFinding> {
     let mut v = vec![];
-    let p = format!("{}/known_findings.txt", VERIF_DIR);
+    let p = format!("{}/known_findings.txt", verif_dir());
     if let Ok(s) = std::fs::read_to_string(p) {
         for line in s.lines() {
             let line = line.trim();
@@ -207,10 +209,10 @@ impl Run {
     /// Finish: write evidence, print verdict lines, return the exit code.
     pub fn finish(mut self) -> i32 {
         let wall = self.started.elapsed().as_secs_f64();
-        let _ = std::fs::create_dir_all(format!("{}/evidence/replay", VERIF_DIR));
+        let _ = std::fs::create_dir_all(format!("{}/evidence/replay", verif_dir()));
         let mut replay_paths = vec![];
         for (i, v) in self.violations.iter().enumerate() {
-            let path = format!("{}/evidence/replay/{}-{}-{}-{}.json", VERIF_DIR, self.prop, self.tier, self.seed, i);
+            let path = format!("{}/evidence/replay/{}-{}-{}-{}.json", verif_dir(), self.prop, self.tier, self.seed, i);
             let doc = json!({
                 "property": self.prop, "tier": self.tier, "seed": self.seed,
                 "case": v.case, "message": v.failure.msg, "signature": v.failure.signature, "detail": v.failure.detail,
@@ -250,7 +252,7 @@ impl Run {
             "wall_s": wall,
             "violations": self.violations.len(),
         });
-        let evp = format!("{}/evidence/{}.json", VERIF_DIR, self.prop);
+        let evp = format!("{}/evidence/{}.json", verif_dir(), self.prop);
         std::fs::write(&evp, serde_json::to_string_pretty(&ev).unwrap()).expect("write evidence");
         for k in &self.known {
             let n = self.stats.excluded_known.get(&k.signature).copied().unwrap_or(0);
